@@ -56,12 +56,17 @@ def sc(t=E):
     return V("scalar", t)
 
 
+def nothing_yet():
+    """element of a container that is still empty: joined with the first real element it disappears"""
+    return V("scalar", E, x="empty")
+
+
 def seq(elem, ot=E, oid=None, t=E):
-    return V("seq", t, elem if elem is not None else sc(), ot, oid)
+    return V("seq", t, elem if elem is not None else nothing_yet(), ot, oid)
 
 
 def mp(val, ot=E, oid=None, key=None):
-    return V("map", E, val if val is not None else sc(), ot, oid, x=key)
+    return V("map", E, val if val is not None else nothing_yet(), ot, oid, x=key)
 
 
 def tup(items):
@@ -142,6 +147,10 @@ def join(a: Optional[V], b: Optional[V], _d=0) -> Optional[V]:
         return a
     if _d > 8:
         return sc(tt(a) | tt(b))
+    if a.kind == "scalar" and a.x == "empty" and not a.t:
+        return b
+    if b.kind == "scalar" and b.x == "empty" and not b.t:
+        return a
     if a.kind == b.kind == "seq":
         return V("seq", a.t | b.t, join(a.elem, b.elem, _d + 1), a.ot | b.ot, a.oid if a.oid == b.oid else ("join", a.oid, b.oid))
     if a.kind == b.kind == "map":
@@ -578,6 +587,13 @@ class TaintInterp:
                 raise AnalysisError(f"taint interpreter: cannot rebind element of {b.kind}")
         elif isinstance(expr, ast.Attribute):
             pass
+        elif isinstance(expr, ast.Call) and isinstance(expr.func, ast.Attribute) and expr.func.attr in ("setdefault", "get") and expr.args:
+            # d.setdefault(k, []).append(x): the element stored under k changes
+            b = self.ev(expr.func.value, env, E, fi)
+            if b.kind == "map":
+                self.rebind(expr.func.value, V("map", b.t, join(b.elem, v), b.ot, b.oid, x=b.x), env, fi)
+            else:
+                raise AnalysisError(f"taint interpreter: cannot rebind the result of .{expr.func.attr}() on {b.kind}")
         else:
             raise AnalysisError("taint interpreter: rebind target")
 
@@ -1311,6 +1327,13 @@ class TaintInterp:
             # the caller stores in the vertex attributes (that the edges are given in the same positions is R-BLISS's clause)
             ig = V("igraph", x=self.graph(), ot=self.src(ORDER, fi, e, "igraph vertex ids = positions chosen by the caller"), oid=None, items={})
             return ig
+        if q in ("networkx.connected_components", "networkx.algorithms.components.connected_components") and a and a[0].kind == "graph":
+            # yields one set of nodes per component; components come in the order in which their first node is listed
+            g = a[0]
+            comp = seq(self.node(g=g), self.src(HASH, fi, e, "a component is a set of nodes (iteration order depends on hashing / insertion)"), ("set", id(e)))
+            return seq(comp, self.src(ORDER, fi, e, "connected_components: components are found in node listing order") | g.ot, ("cc", id(e)))
+        if q in ("networkx.number_connected_components", "networkx.is_connected", "networkx.number_of_nodes", "networkx.number_of_edges"):
+            return sc()
         if q == "networkx.density":
             return sc()
         if q in ("collections.deque",):
@@ -1485,7 +1508,16 @@ class TaintInterp:
                 kt = without(tt(a[0]), LABEL) if a else E
                 return add(join(recv.elem, a[1] if len(a) > 1 else None), kt)
             if name == "setdefault":
-                return join(recv.elem, a[1] if len(a) > 1 else None)
+                # inserts the key when it is new: the dictionary's own order is the order in which keys were first seen
+                kt = without(tt(a[0]), LABEL) if a else E
+                newel = join(recv.elem, a[1] if len(a) > 1 else V("none"))
+                vpc = E if a and a[0].kind == "node" else pc
+                nb = V("map", recv.t, newel, recv.ot | pc | self.oc() | kt, recv.oid, x=join(recv.x, a[0]) if isinstance(recv.x, V) and a else (a[0] if a else recv.x))
+                try:
+                    self.rebind(f.value, nb, env, fi)
+                except AnalysisError:
+                    pass
+                return add(newel, kt | vpc) if newel is not None else sc(kt)
             if name == "copy":
                 return recv
             if name == "update":
@@ -1521,6 +1553,8 @@ class TaintInterp:
                 return V("none")
             if name in ("index", "count"):
                 return sc(tt(recv) | allt)
+        if k in ("const", "scalar", "none") and name in ("append", "appendleft", "add", "extend", "extendleft", "insert", "update", "setdefault") and not isinstance(f.value, ast.Attribute):
+            raise AnalysisError(f"taint interpreter: `{short(e, 50)}` at {fi.loc(e)} changes a container this analysis lost track of ({k})")
         if k in ("const", "scalar") and name == "join":
             el, ot = self.iterate(a[0], fi, e)
             return sc(tt(el) | ot | tt(recv))
